@@ -594,23 +594,38 @@ package whispertool
 //@   use div_mono(s, b, a + n * s)
 //@   ensures bound: b fdiv s - a fdiv s <= n
 
-//@ spec wellShapedTS(ts *TimeSeries) bool = ts.step > 0 && len(ts.values) * ts.step <= 2147483647 && ts.fromTime + len(ts.values) * ts.step <= 4294967295
+//@ spec wellShapedTS(ts *TimeSeries) bool = ts.step >= 1 && len(ts.values) * ts.step <= 2147483647 && ts.fromTime + len(ts.values) * ts.step <= 4294967295
 //@ lemma mul_mono(i int, n int, s int)
 //@   props C04 C18
 //@   requires 0 <= i && i <= n && s >= 0
 //@   ensures mono: i * s <= n * s && 0 <= i * s
+//@   ensures ge: s >= 1 ==> i <= i * s && n <= n * s
+
+//@ spec tsTime(from int, i int, step int) opaque int = from + i * step
+//@ lemma wrap_id32(x int)
+//@   props C04 C18 C08 C09
+//@   requires -2147483648 <= x && x <= 2147483647
+//@   ensures id: wrapi32(x) == x
+//@ lemma series_time(from int, i int, n int, step int)
+//@   props C04 C18 C08 C09
+//@   requires 0 <= i && i <= n && step >= 1 && n * step <= 2147483647 && 0 <= from && from + n * step <= 4294967295
+//@   use mul_mono(i, n, step)
+//@   use wrap_id32(i)
+//@   use wrap_id32(i * step)
+//@   ensures time: (from + wrapi32(wrapi32(i) * step)) fmod 4294967296 == tsTime(from, i, step)
+//@   ensures bound: tsTime(from, i, step) <= from + n * step && from <= tsTime(from, i, step)
 
 //@ func (*TimeSeries).Points
 //@   props C04 C18
 //@   ensures absent: ts == nil ==> len(result) == 0
 //@   ensures length: ts != nil ==> len(result) == len(ts.values) && fresh(result)
 //@   ensures values: ts != nil ==> forall i :: 0 <= i && i < len(ts.values) ==> bits(result[i].Value) == bits(ts.values[i])
-//@   ensures times: ts != nil && wellShapedTS(ts) ==> forall i :: 0 <= i && i < len(ts.values) ==> result[i].Time == ts.fromTime + i * ts.step
+//@   ensures times: ts != nil && wellShapedTS(ts) ==> forall i :: 0 <= i && i < len(ts.values) ==> result[i].Time == tsTime(ts.fromTime, i, ts.step)
 //@ loop (*TimeSeries).Points#0
 //@   invariant bounds: 0 <= i && i <= len(ts.values) && len(pts) == len(ts.values) && pts.arr > old(top)
 //@   invariant values: forall k :: 0 <= k && k < i ==> bits(pts[k].Value) == bits(ts.values[k])
-//@   invariant times: wellShapedTS(ts) ==> forall k :: 0 <= k && k < i ==> pts[k].Time == ts.fromTime + k * ts.step
-//@   use mul_mono(i, len(ts.values), ts.step) when wellShapedTS(ts)
+//@   invariant times: wellShapedTS(ts) ==> forall k :: 0 <= k && k < i ==> pts[k].Time == tsTime(ts.fromTime, k, ts.step)
+//@   use series_time(ts.fromTime, i, len(ts.values), ts.step) when wellShapedTS(ts)
 
 // ---------------------------------------------------------------- write path (C01, C02, C03)
 
@@ -748,3 +763,64 @@ package whispertool
 //@                                               && alignedTo(floorTo(t, stepOf(w, k)) - old(baseOf(w, k)), stepOf(w, k))))
 //@                 ==> slotT(w, k, writeSlot(w, k, floorTo(t, stepOf(w, k)))) == floorTo(t, stepOf(w, k)) && slotB(w, k, writeSlot(w, k, floorTo(t, stepOf(w, k)))) == bits(v)
 //@   ensures[C01,C05] finer_untouched: forall k :: chosen(w, archiveID, k, t, now) ==> forall b :: b < archOf(w, k).offset ==> fbyte(w.fileBuf, b) == old(fbyte(w.fileBuf, b))
+
+// ---------------------------------------------------------------- values (C09, C10)
+
+//@ func (Value).IsNaN
+//@   props C09 C10 C08
+//@   ensures nan: result <==> isNaN(v)
+
+//@ func (*Value).SetNaN
+//@   props C01
+//@   requires v != nil
+//@   modifies *v
+//@   ensures nan: bits(*v) == 9221120237041090561 && isNaN(*v)
+
+//@ func (Value).Equal
+//@   props C09 C08 C11
+//@   ensures eq: result <==> ((isNaN(v) && isNaN(u)) || (!isNaN(v) && !isNaN(u) && v == u))
+//@   ensures refl: bits(v) == bits(u) ==> result
+//@   ensures veq: result <==> valueEqual(bits(v), bits(u))
+
+//@ func (Value).Diff
+//@   props C09
+//@   ensures nan: (isNaN(v) || isNaN(u)) ==> bits(result) == 9221120237041090561 && isNaN(result)
+//@   ensures sub: !isNaN(v) && !isNaN(u) ==> fp(result) == fp(v) - fp(u)
+
+//@ func (Value).Add
+//@   props C10 C11
+//@   ensures left_nan: isNaN(v) ==> bits(result) == bits(u)
+//@   ensures right_nan: !isNaN(v) && isNaN(u) ==> bits(result) == bits(v)
+//@   ensures sum: !isNaN(v) && !isNaN(u) ==> fp(result) == fp(v) + fp(u)
+//@   ensures nan_only_if_all: isNaN(result) ==> (isNaN(v) && isNaN(u)) || (!isNaN(v) && !isNaN(u))
+
+// ---------------------------------------------------------------- differences between series (C08, C09, C11)
+
+//@ spec valueEqual(a int, b int) opaque bool = (isNaN(f64frombits(a)) && isNaN(f64frombits(b))) || (!isNaN(f64frombits(a)) && !isNaN(f64frombits(b)) && fpeq(f64frombits(a), f64frombits(b)))
+//@ spec diffcnt(ra floats, oa int, rb floats, ob int, n int, tdiff bool) rec int = ite(n <= 0, 0, diffcnt(ra, oa, rb, ob, n - 1, tdiff) + ite(tdiff || !valueEqual(ra[oa + n - 1], rb[ob + n - 1]), 1, 0))
+//@ spec tsDiffers(ts *TimeSeries, ts2 *TimeSeries, i int) bool = ts.fromTime != ts2.fromTime || !valueEqual(bits(ts.values[i]), bits(ts2.values[i]))
+//@ spec tsDiffCnt(ts *TimeSeries, ts2 *TimeSeries, n int) int = diffcnt(row(ts.values), ts.values.off, row(ts2.values), ts2.values.off, n, ts.fromTime != ts2.fromTime)
+
+//@ func (*TimeSeries).DiffPoints
+//@   props C09 C08 C11
+//@   requires ts != nil && ts2 != nil && wellShapedTS(ts)
+//@   ensures unequal_len: len(ts.values) != len(ts2.values) ==> len(result0) == len(ts.values) && len(result1) == len(ts2.values)
+//@   ensures count: len(ts.values) == len(ts2.values) ==> len(result0) == tsDiffCnt(ts, ts2, len(ts.values)) && len(result1) == len(result0)
+//@   ensures fresh: (len(result0) == 0 || fresh(result0)) && (len(result1) == 0 || fresh(result1))
+//@   ensures each: len(ts.values) == len(ts2.values) ==> forall i :: 0 <= i && i < len(ts.values) && tsDiffers(ts, ts2, i) ==>
+//@                 0 <= tsDiffCnt(ts, ts2, i) && tsDiffCnt(ts, ts2, i) < len(result0)
+//@                 && result0[tsDiffCnt(ts, ts2, i)].Time == tsTime(ts.fromTime, i, ts.step) && bits(result0[tsDiffCnt(ts, ts2, i)].Value) == bits(ts.values[i])
+//@                 && bits(result1[tsDiffCnt(ts, ts2, i)].Value) == bits(ts2.values[i])
+//@                 && (ts.fromTime == ts2.fromTime ==> result1[tsDiffCnt(ts, ts2, i)].Time == tsTime(ts.fromTime, i, ts.step))
+//@ loop (*TimeSeries).DiffPoints#0
+//@   use series_time(ts.fromTime, i, len(ts.values), ts.step)
+//@   invariant bounds: 0 <= i && i <= len(ts.values) && len(ts.values) == len(ts2.values)
+//@   invariant fresh: ((len(pts) == 0 && pts.arr == 0) || pts.arr > old(top)) && ((len(pts2) == 0 && pts2.arr == 0) || pts2.arr > old(top))
+//@   invariant separate: (pts.arr == 0 && pts2.arr == 0) || pts.arr != pts2.arr
+//@   invariant count: len(pts) == tsDiffCnt(ts, ts2, i) && len(pts2) == len(pts) && len(pts) <= i
+//@   invariant next: tsDiffCnt(ts, ts2, i + 1) >= tsDiffCnt(ts, ts2, i)
+//@   invariant each: forall k :: 0 <= k && k < i && tsDiffers(ts, ts2, k) ==>
+//@                 0 <= tsDiffCnt(ts, ts2, k) && tsDiffCnt(ts, ts2, k) < len(pts)
+//@                 && pts[tsDiffCnt(ts, ts2, k)].Time == tsTime(ts.fromTime, k, ts.step) && bits(pts[tsDiffCnt(ts, ts2, k)].Value) == bits(ts.values[k])
+//@                 && bits(pts2[tsDiffCnt(ts, ts2, k)].Value) == bits(ts2.values[k])
+//@                 && (ts.fromTime == ts2.fromTime ==> pts2[tsDiffCnt(ts, ts2, k)].Time == tsTime(ts.fromTime, k, ts.step))
